@@ -7,7 +7,10 @@ from . import proggen as G
 ID = "C01"
 NEEDS_CVM = True
 ORACLE_ON_MODEL = False  # the model side of a VM case runs the *real* image: it is not Model(x) of the theorem
-THEOREMS = []  # filled below once the theorem files exist
+AUDIT_IMPORTS = ["PortusModel.Props.C03", "PortusModel.Props.C10", "PortusModel.Props.C13", "PortusModel.Props.C14"]
+# proved so far (the end-to-end simulation theorem is in progress, see LEVEL_TEXT): the compiler invariants C01 rests on
+THEOREMS = ["Portus.C03.bin_wf", "Portus.C13.compile_scope_slots", "Portus.C13.instrs_use_scope", "Portus.C14.literal_read_back",
+            "Portus.C10.compile_and_serialize_no_panic"]
 RELATION = ("(a) image bytes of compile_and_serialize; (b) per-invocation observations (return code, set_cwnd, set_rate, report "
             "message) of the REAL libccp running the REAL image on scripted measurement/clock sequences, vs the Lean libccp model")
 RULE = ("type-directed stratified programs (all 16 operators in both spellings, tree shapes using 1..8 temporaries, locals across "
